@@ -8,6 +8,7 @@ CONFIG = {
         "test_reports_real_conflict",
         "round_granted_never_conflict",
         "round_first_granted",
+        "round_denied_has_cause",
         "test_misses_no_conflict",
         "test_iff_no_conflict",
         "test_iff_denied",
